@@ -157,6 +157,9 @@ func runC19(c *Ctx) {
 
 	ruleConstIndexGuarded(c)
 
+	R.Rule("R-no-dispatch-after-close", "E2+E4+call graph", "after the dispatch that closes the connection for too many errors no further buffered command is dispatched (its handler would run without a session and panic)", 2)
+	ruleNoDispatchAfterClose(c)
+
 	R.Rule("R-errcount", "E6+E2", "errThreshold is 3; protocolError increments the count once and closes exactly when it exceeds the threshold; empty, unknown and unparsable commands all use protocolError", 7)
 	if o := c.A.Object("errThreshold"); o != nil {
 		if k, ok := o.(interface{ Val() constant.Value }); ok {
